@@ -18,7 +18,11 @@
      UpgmaStep / Upgma           upgma(): the code's loop, one merge per step
      NjStep / Nj                 neighbor_joining(): divergences, corrected distances, branch
                                  lengths, final three-way join *)
-EXTENDS Integers, Sequences, FiniteSets, SequencesExt, FiniteSetsExt
+EXTENDS Integers, Sequences, FiniteSets, SequencesExt, FiniteSetsExt, TLC
+
+\* Bind(v, F): F(v) with v evaluated exactly once.  (TLC may re-evaluate a LET definition at every
+\* use when it refers to other LET definitions; a variable bound by a set constructor is a value.)
+Bind(v, F(_)) == CHOOSE r \in {F(x) : x \in {v}} : TRUE
 
 (* ------------------------------------------------------------------ rationals *)
 RECURSIVE Gcd(_, _)
@@ -49,34 +53,34 @@ LeafSet(t) == ToSet(LeafList(t))
 \* the property: every index 0..n-1 is exactly one leaf
 LeavesOnce(t, n) == Len(LeafList(t)) = n /\ LeafSet(t) = 0..(n - 1)
 
-\* depth of every leaf below t (t's own len excluded): function leaf index -> rational
-RECURSIVE Depths(_)
-Depths(t) ==
-  IF IsLeaf(t) THEN [i \in {t.idx} |-> R(0)]
-  ELSE LET sub == [k \in DOMAIN t.kids |-> Depths(t.kids[k])] IN
-       [i \in LeafSet(t) |->
-          LET k == CHOOSE k \in DOMAIN t.kids : i \in DOMAIN sub[k] IN RAdd(t.kids[k].len, sub[k][i])]
-
-\* declarative leaf-to-leaf distance: the pair parts at the lowest node holding both
-RECURSIVE PairDist(_, _, _)
-PairDist(t, i, j) ==
-  IF i = j THEN R(0)
-  ELSE LET ki == CHOOSE k \in DOMAIN t.kids : i \in LeafSet(t.kids[k])
-           kj == CHOOSE k \in DOMAIN t.kids : j \in LeafSet(t.kids[k])
-       IN IF ki = kj THEN PairDist(t.kids[ki], i, j)
-          ELSE RAdd(RAdd(t.kids[ki].len, Depths(t.kids[ki])[i]), RAdd(t.kids[kj].len, Depths(t.kids[kj])[j]))
-\* the clade (leaf set) of the lowest common ancestor
-RECURSIVE LcaClade(_, _, _)
-LcaClade(t, i, j) ==
-  IF IsLeaf(t) THEN {t.idx}
-  ELSE LET ki == CHOOSE k \in DOMAIN t.kids : i \in LeafSet(t.kids[k])
-           kj == CHOOSE k \in DOMAIN t.kids : j \in LeafSet(t.kids[k])
-       IN IF ki = kj THEN LcaClade(t.kids[ki], i, j) ELSE LeafSet(t)
+\* One bottom-up pass over the sub-trees:
+\*   ls   leaf set            dep  leaf -> depth below t (t's own len excluded)
+\*   pd   <<i, j>> -> leaf-to-leaf distance: the pair parts at the lowest node holding both, there
+\*        the distance is the sum of the two depths
+\*   lca  <<i, j>> -> clade (leaf set) of the lowest common ancestor
+RECURSIVE Info(_)
+Info(t) ==
+  IF IsLeaf(t)
+    THEN [ls |-> {t.idx}, dep |-> [i \in {t.idx} |-> R(0)],
+          pd |-> [p \in {<<t.idx, t.idx>>} |-> R(0)], lca |-> [p \in {<<t.idx, t.idx>>} |-> {t.idx}]]
+    ELSE \* TLCEval: TLC evaluates function constructors lazily (the body again at every
+         \* application); forcing them and binding them once keeps the pass linear
+         Bind(TLCEval([k \in DOMAIN t.kids |-> Info(t.kids[k])]), LAMBDA sub :
+         Bind(UNION {sub[k].ls : k \in DOMAIN sub}, LAMBDA ls :
+         Bind(TLCEval([i \in ls |-> CHOOSE k \in DOMAIN sub : i \in sub[k].ls]), LAMBDA kid :
+         Bind(TLCEval([i \in ls |-> RAdd(t.kids[kid[i]].len, sub[kid[i]].dep[i])]), LAMBDA dep :
+           [ls |-> ls, dep |-> dep,
+            pd |-> TLCEval([p \in ls \X ls |-> IF kid[p[1]] = kid[p[2]] THEN sub[kid[p[1]]].pd[p]
+                                               ELSE RAdd(dep[p[1]], dep[p[2]])]),
+            lca |-> TLCEval([p \in ls \X ls |-> IF kid[p[1]] = kid[p[2]] THEN sub[kid[p[1]]].lca[p] ELSE ls])]))))
+Depths(t) == Info(t).dep
+PairDist(t, i, j) == Info(t).pd[<<i, j>>]
+LcaClade(t, i, j) == Info(t).lca[<<i, j>>]
 \* topological distance: every edge counts 1
 RECURSIVE UnitLens(_)
-UnitLens(t) == Node(R(1), t.idx, [k \in DOMAIN t.kids |-> UnitLens(t.kids[k])])
+UnitLens(t) == Node(R(1), t.idx, TLCEval([k \in DOMAIN t.kids |-> UnitLens(t.kids[k])]))
 RECURSIVE ZeroLens(_)
-ZeroLens(t) == Node(R(0), t.idx, [k \in DOMAIN t.kids |-> ZeroLens(t.kids[k])])
+ZeroLens(t) == Node(R(0), t.idx, TLCEval([k \in DOMAIN t.kids |-> ZeroLens(t.kids[k])]))
 
 RECURSIVE Clades(_)
 Clades(t) == {LeafSet(t)} \cup UNION {Clades(t.kids[k]) : k \in DOMAIN t.kids}
@@ -111,32 +115,28 @@ Chain(kids) ==
 RECURSIVE AsBinaryNode(_)
 AsBinaryNode(t) ==
   IF IsLeaf(t) THEN t
-  ELSE LET bk == [k \in DOMAIN t.kids |-> AsBinaryNode(t.kids[k])] IN
+  ELSE Bind(TLCEval([k \in DOMAIN t.kids |-> AsBinaryNode(t.kids[k])]), LAMBDA bk :
        IF Len(bk) = 1 THEN [bk[1] EXCEPT !.len = RAdd(t.len, bk[1].len)]     \* node dissolved
        ELSE IF Len(bk) = 2 THEN Node(t.len, -1, bk)
-       ELSE [Chain(bk) EXCEPT !.len = t.len]
+       ELSE [Chain(bk) EXCEPT !.len = t.len])
 AsBinary(t) == [AsBinaryNode(t) EXCEPT !.len = R(0)]
 RECURSIVE IsBinary(_)
 IsBinary(t) == IsLeaf(t) \/ (Len(t.kids) = 2 /\ \A k \in DOMAIN t.kids : IsBinary(t.kids[k]))
 
 (* ---- equality: children unordered ------------------------------------------------------- *)
 MinLeaf(t) == Min(LeafSet(t))
-RECURSIVE Canon(_)
-Canon(t) ==
-  Node(t.len, t.idx,
-       LET ck == [k \in DOMAIN t.kids |-> Canon(t.kids[k])] IN
-       SetToSortSeq({k \in DOMAIN ck : TRUE}, LAMBDA a, b : MinLeaf(ck[a]) < MinLeaf(ck[b])))
-\* (Canon sorts child positions; CanonTree substitutes the children)
 RECURSIVE CanonTree(_)
 CanonTree(t) ==
-  LET ck == [k \in DOMAIN t.kids |-> CanonTree(t.kids[k])]
-      order == SetToSortSeq(DOMAIN ck, LAMBDA a, b : MinLeaf(ck[a]) < MinLeaf(ck[b]))
-  IN Node(t.len, t.idx, [q \in DOMAIN order |-> ck[order[q]]])
+  Bind(TLCEval([k \in DOMAIN t.kids |-> CanonTree(t.kids[k])]), LAMBDA ck :
+  Bind(TLCEval([k \in DOMAIN ck |-> MinLeaf(ck[k])]), LAMBDA ml :
+  Bind(SetToSortSeq(DOMAIN ck, LAMBDA a, b : ml[a] < ml[b]), LAMBDA order :
+    Node(t.len, t.idx, [q \in DOMAIN order |-> ck[order[q]]]))))
 AtRoot(t) == [t EXCEPT !.len = R(0)]
 SameTree(a, b) == CanonTree(AtRoot(a)) = CanonTree(AtRoot(b))
 SameTopology(a, b) == CanonTree(ZeroLens(a)) = CanonTree(ZeroLens(b))
 SameLeafDistances(a, b) ==
-  LeafSet(a) = LeafSet(b) /\ \A i, j \in LeafSet(a) : REq(PairDist(a, i, j), PairDist(b, i, j))
+  \E ia \in {Info(a)} : \E ib \in {Info(b)} :       \* (bound once; a LET would be re-evaluated per use)
+    ia.ls = ib.ls /\ \A p \in ia.ls \X ia.ls : REq(ia.pd[p], ib.pd[p])
 
 (* ---- domain of trees ---------------------------------------------------------------------- *)
 RECURSIVE NodesOK(_)
@@ -151,6 +151,10 @@ Dom_Matrix(D) ==
   /\ \A i \in DOMAIN D : Len(D[i]) = Len(D)
   /\ \A i, j \in DOMAIN D : D[i][j] = D[j][i] /\ D[i][j] >= 0
   /\ \A i \in DOMAIN D : D[i][i] = 0
+\* what upgma() / neighbor_joining() validate themselves (documented ValueError otherwise)
+Dom_SymNonNeg(D) ==
+  /\ \A i \in DOMAIN D : Len(D[i]) = Len(D)
+  /\ \A i, j \in DOMAIN D : D[i][j] = D[j][i] /\ D[i][j] >= 0
 \* average linkage between two clusters (sets of indices): mean of the original distances
 LinkSum(D, A, B) == FoldLeft(LAMBDA acc, p : acc + DAt(D, p[1], p[2]), 0, SetToSeq(A \X B))
 AvgLink(D, A, B) == RNorm(LinkSum(D, A, B), Cardinality(A) * Cardinality(B))
@@ -166,18 +170,18 @@ UpgmaInit(D) ==
   [act |-> 0..(n - 1),
    mem |-> [i \in 0..(n - 1) |-> {i}],
    h   |-> [i \in 0..(n - 1) |-> R(0)],
-   d   |-> [p \in {q \in (0..(n - 1)) \X (0..(n - 1)) : q[1] > q[2]} |-> R(DAt(D, p[1], p[2]))],
-   node |-> [i \in 0..(n - 1) |-> LeafN(R(0), i)]]
+   d   |-> TLCEval([p \in {q \in (0..(n - 1)) \X (0..(n - 1)) : q[1] > q[2]} |-> R(DAt(D, p[1], p[2]))]),
+   node |-> TLCEval([i \in 0..(n - 1) |-> LeafN(R(0), i)])]
 DU(U, i, j) == IF i > j THEN U.d[<<i, j>>] ELSE U.d[<<j, i>>]
 LivePairs(U) == {p \in DOMAIN U.d : p[1] \in U.act /\ p[2] \in U.act}
 \* first minimum in the scan order (i ascending, then j ascending), strict '<'
 PairBefore(p, q) == p[1] < q[1] \/ (p[1] = q[1] /\ p[2] < q[2])
 FirstMin(pairs, val(_)) ==
-  CHOOSE p \in pairs : \A q \in pairs : RLt(val(p), val(q)) \/ (REq(val(p), val(q)) /\ (p = q \/ PairBefore(p, q)))
+  Bind(TLCEval([p \in pairs |-> val(p)]), LAMBDA v :
+    CHOOSE p \in pairs : \A q \in pairs : RLt(v[p], v[q]) \/ (REq(v[p], v[q]) /\ (p = q \/ PairBefore(p, q))))
 UpgmaDone(U) == Cardinality(U.act) <= 1
-UpgmaStep(U) ==
-  LET p == FirstMin(LivePairs(U), LAMBDA q : U.d[q])
-      i == p[1]  j == p[2]
+UpgmaMerge(U, p) ==
+  LET i == p[1]  j == p[2]
       height == RDivI(U.d[p], 2)
       si == Cardinality(U.mem[i])  sj == Cardinality(U.mem[j])
       newNode == Node(R(0), -1, <<[U.node[i] EXCEPT !.len = RSub(height, U.h[i])],
@@ -186,12 +190,14 @@ UpgmaStep(U) ==
   IN [act |-> act2,
       mem |-> [U.mem EXCEPT ![i] = U.mem[i] \cup U.mem[j]],
       h   |-> [U.h EXCEPT ![i] = height],
-      d   |-> [q \in DOMAIN U.d |->
+      d   |-> TLCEval([q \in DOMAIN U.d |->
                  IF (q[1] = i \/ q[2] = i) /\ q[1] \in act2 /\ q[2] \in act2
                    THEN LET k == IF q[1] = i THEN q[2] ELSE q[1] IN
                         RDivI(RAdd(RMulI(DU(U, i, k), si), RMulI(DU(U, j, k), sj)), si + sj)
-                   ELSE U.d[q]],
+                   ELSE U.d[q]]),
       node |-> [U.node EXCEPT ![i] = newNode]]
+\* one pass of the while loop: find the first minimum, merge
+UpgmaStep(U) == Bind(FirstMin(LivePairs(U), LAMBDA q : U.d[q]), LAMBDA p : UpgmaMerge(U, p))
 RECURSIVE UpgmaRun(_)
 UpgmaRun(U) == IF UpgmaDone(U) THEN U ELSE UpgmaRun(UpgmaStep(U))
 Upgma(D) == LET U == UpgmaRun(UpgmaInit(D)) IN U.node[CHOOSE i \in U.act : TRUE]
@@ -201,39 +207,61 @@ RECURSIVE MergeHeightsOK(_, _)
 MergeHeightsOK(D, t) ==
   IsLeaf(t) \/
   /\ Len(t.kids) = 2
-  /\ LET half == RDivI(AvgLink(D, LeafSet(t.kids[1]), LeafSet(t.kids[2])), 2) IN
-     \A i \in LeafSet(t) : REq(Depths(t)[i], half)                     \* ultrametric at this node
+  /\ LET half == RDivI(AvgLink(D, LeafSet(t.kids[1]), LeafSet(t.kids[2])), 2)
+         dep == Depths(t)
+     IN \A i \in DOMAIN dep : REq(dep[i], half)                         \* ultrametric at this node
   /\ \A k \in DOMAIN t.kids : MergeHeightsOK(D, t.kids[k])
+\* the two child clades of the lowest common ancestor of i and j (i # j, binary node)
+RECURSIVE LcaSide(_, _, _)
+LcaSide(t, i, j) ==
+  LET ki == CHOOSE k \in DOMAIN t.kids : i \in LeafSet(t.kids[k])
+      kj == CHOOSE k \in DOMAIN t.kids : j \in LeafSet(t.kids[k])
+  IN IF ki = kj THEN LcaSide(t.kids[ki], i, j) ELSE <<LeafSet(t.kids[ki]), LeafSet(t.kids[kj])>>
 UpgmaPost(D, t) == [leaves |-> LeavesOnce(t, Len(D)), heights |-> LeavesOnce(t, Len(D)) /\ MergeHeightsOK(D, t)]
+
+\* The same postcondition on what can be observed of a real tree through the public API:
+\*   leaves  leaf indices in tree order
+\*   nodes   one entry per inner node: [a |-> leaves below the first child, b |-> below the second,
+\*           arity |-> number of children, dep |-> <<<<leaf, depth below the node>>, ...>>]
+UpgmaPostObs(D, leaves, nodes) ==
+  LET once == Len(leaves) = Len(D) /\ ToSet(leaves) = 0..(Len(D) - 1) IN
+  [leaves  |-> once,
+   heights |-> once /\ \A k \in DOMAIN nodes :
+                 /\ nodes[k].arity = 2
+                 /\ LET half == RDivI(AvgLink(D, ToSet(nodes[k].a), ToSet(nodes[k].b)), 2) IN
+                    \A q \in DOMAIN nodes[k].dep : REq(nodes[k].dep[q][2], half)]
+RECURSIVE NodeObs(_)
+NodeObs(t) ==
+  IF IsLeaf(t) THEN <<>>
+  ELSE <<[a |-> LeafList(t.kids[1]), b |-> IF Len(t.kids) >= 2 THEN LeafList(t.kids[2]) ELSE <<>>,
+          arity |-> Len(t.kids),
+          dep |-> LET ls == LeafList(t) IN [q \in DOMAIN ls |-> <<ls[q], Depths(t)[ls[q]]>>]]>>
+       \o FlattenSeq([k \in DOMAIN t.kids |-> NodeObs(t.kids[k])])
 
 (* ---- neighbour joining: the code's loop ---------------------------------------------------
    J = [act, d (current distances, rationals), node, r = number of live nodes, root (<<>> or <<tree>>)] *)
 NjInit(D) ==
   LET n == Len(D) IN
   [act |-> 0..(n - 1),
-   d   |-> [p \in {q \in (0..(n - 1)) \X (0..(n - 1)) : q[1] > q[2]} |-> R(DAt(D, p[1], p[2]))],
-   node |-> [i \in 0..(n - 1) |-> LeafN(R(0), i)],
+   d   |-> TLCEval([p \in {q \in (0..(n - 1)) \X (0..(n - 1)) : q[1] > q[2]} |-> R(DAt(D, p[1], p[2]))]),
+   node |-> TLCEval([i \in 0..(n - 1) |-> LeafN(R(0), i)]),
    root |-> <<>>]
 DJ(J, i, j) == IF i = j THEN R(0) ELSE IF i > j THEN J.d[<<i, j>>] ELSE J.d[<<j, i>>]
-Divergence(J, i) == RSum([q \in 1..Cardinality(J.act) |-> DJ(J, i, SetToSortSeq(J.act, <)[q])])
+Divergence(J, i) == LET ks == SetToSeq(J.act) IN RSum([q \in DOMAIN ks |-> DJ(J, i, ks[q])])
 NjDone(J) == J.root # <<>>
-NjStep(J) ==
-  LET r == Cardinality(J.act)
-      div == [i \in J.act |-> Divergence(J, i)]
-      pairs == {p \in DOMAIN J.d : p[1] \in J.act /\ p[2] \in J.act}
-      corr(p) == RSub(RSub(RMulI(J.d[p], r - 2), div[p[1]]), div[p[2]])
-      p == FirstMin(pairs, corr)
-      i == p[1]  j == p[2]
+NjCorr(J, div, r, p) == RSub(RSub(RMulI(J.d[p], r - 2), div[p[1]]), div[p[2]])
+NjJoin(J, div, r, p) ==
+  LET i == p[1]  j == p[2]
       li == RDivI(RAdd(J.d[p], RDivI(RSub(div[i], div[j]), r - 2)), 2)
       lj == RDivI(RAdd(J.d[p], RDivI(RSub(div[j], div[i]), r - 2)), 2)
   IN IF r > 3
        THEN LET act2 == J.act \ {j} IN
             [act |-> act2,
-             d |-> [q \in DOMAIN J.d |->
+             d |-> TLCEval([q \in DOMAIN J.d |->
                       IF (q[1] = i \/ q[2] = i) /\ q[1] \in act2 /\ q[2] \in act2
                         THEN LET k == IF q[1] = i THEN q[2] ELSE q[1] IN
                              RDivI(RSub(RAdd(DJ(J, i, k), DJ(J, j, k)), J.d[p]), 2)
-                        ELSE J.d[q]],
+                        ELSE J.d[q]]),
              node |-> [J.node EXCEPT ![i] = Node(R(0), -1, <<[J.node[i] EXCEPT !.len = li],
                                                             [J.node[j] EXCEPT !.len = lj]>>)],
              root |-> <<>>]
@@ -242,6 +270,12 @@ NjStep(J) ==
             IN [J EXCEPT !.act = {},
                          !.root = <<Node(R(0), -1, <<[J.node[i] EXCEPT !.len = li], [J.node[j] EXCEPT !.len = lj],
                                                      [J.node[k] EXCEPT !.len = lk]>>)>>]
+\* one pass of the while loop: divergences, corrected distances, first minimum, join
+NjStep(J) ==
+  Bind(Cardinality(J.act), LAMBDA r :
+  Bind(TLCEval([i \in J.act |-> Divergence(J, i)]), LAMBDA div :
+  Bind(FirstMin({p \in DOMAIN J.d : p[1] \in J.act /\ p[2] \in J.act}, LAMBDA q : NjCorr(J, div, r, q)), LAMBDA p :
+    NjJoin(J, div, r, p))))
 RECURSIVE NjRun(_)
 NjRun(J) == IF NjDone(J) THEN J ELSE NjRun(NjStep(J))
 Nj(D) == NjRun(NjInit(D)).root[1]
@@ -260,11 +294,23 @@ Dom_Additive(D) ==
 \* the matrix of a tree (integer branch lengths)
 TreeMatrix(t) ==
   LET n == Len(LeafList(t)) IN
-  [i \in 1..n |-> [j \in 1..n |-> PairDist(t, i - 1, j - 1)[1]]]
+  LET pd == Info(t).pd IN [i \in 1..n |-> [j \in 1..n |-> pd[<<i - 1, j - 1>>][1]]]
 NjPost(D, t) ==
   [leaves |-> LeavesOnce(t, Len(D)),
    paths  |-> Dom_Additive(D) => (LeavesOnce(t, Len(D)) /\
-                \A i, j \in 0..(Len(D) - 1) : REq(PairDist(t, i, j), R(DAt(D, i, j))))]
+                LET pd == Info(t).pd IN \A i, j \in 0..(Len(D) - 1) : REq(pd[<<i, j>>], R(DAt(D, i, j))))]
+
+\* all symmetric matrices with zero diagonal and entries 0..E
+SymMatrices(n, E) ==
+  LET pairs == {q \in (1..n) \X (1..n) : q[1] > q[2]} IN
+  {[i \in 1..n |-> [j \in 1..n |-> IF i = j THEN 0 ELSE IF i > j THEN f[<<i, j>>] ELSE f[<<j, i>>]]]
+     : f \in [pairs -> 0..E]}
+
+\* the same on observables: leaf list and the matrix of Tree.get_distance(i, j)
+NjPostObs(D, leaves, dist) ==
+  LET once == Len(leaves) = Len(D) /\ ToSet(leaves) = 0..(Len(D) - 1) IN
+  [leaves |-> once,
+   paths  |-> Dom_Additive(D) => (once /\ \A i, j \in DOMAIN D : REq(dist[i][j], R(D[i][j])))]
 
 (* ------------------------------------------------------------------ generators of trees *)
 \* partitions of a set S into exactly k non-empty blocks, as sets of blocks
@@ -284,15 +330,26 @@ LenOf(S, pat) ==
 
 \* all rooted trees over leaf set S: arity 2..MaxArity at every inner node, optionally one unary
 \* node above a sub-tree (unary = TRUE)
+\* all sequences whose q-th element comes from sets[q]
+SeqProduct(sets) ==
+  FoldLeft(LAMBDA acc, q : {Append(p, x) : p \in acc, x \in sets[q]}, {<<>>}, [q \in DOMAIN sets |-> q])
+
 RECURSIVE TreesOver(_, _, _, _)
 TreesOver(S, maxArity, unary, pat) ==
   LET plain ==
         IF Cardinality(S) = 1 THEN {LeafN(LenOf(S, pat), Min(S))}
         ELSE UNION {
-               UNION {{Node(LenOf(S, pat), -1, kids) :
-                          kids \in {f \in [1..k -> UNION {TreesOver(B, maxArity, unary, pat) : B \in P}] :
-                                      \A q \in 1..k : f[q] \in TreesOver(BlocksInOrder(P)[q], maxArity, unary, pat)}}
+               UNION {LET blocks == BlocksInOrder(P)
+                          subs == [q \in DOMAIN blocks |-> TreesOver(blocks[q], maxArity, unary, pat)]
+                      IN {Node(LenOf(S, pat), -1, kids) : kids \in SeqProduct(subs)}
                       : P \in PartitionsK(S, k)}
                : k \in 2..maxArity}
   IN plain \cup (IF unary /\ Cardinality(S) <= 2 THEN {Node(R(1), -1, <<t>>) : t \in plain} ELSE {})
+
+\* all rooted binary trees over S with every branch length taken from L (integers)
+RECURSIVE BinTreesL(_, _)
+BinTreesL(S, L) ==
+  IF Cardinality(S) = 1 THEN {LeafN(R(w), Min(S)) : w \in L}
+  ELSE UNION {{Node(R(w), -1, <<a, b>>) : w \in L, a \in BinTreesL(BlocksInOrder(P)[1], L), b \in BinTreesL(BlocksInOrder(P)[2], L)}
+              : P \in PartitionsK(S, 2)}
 =============================================================================
